@@ -2,11 +2,13 @@
 //! (C47) — and the WAT generator R8 (`watgen`).
 
 pub mod c45;
+pub mod c46;
+pub mod c47;
 pub mod inspect;
 pub mod watgen;
 
 pub use c45::c45_bytes_case;
 
 pub fn checks() -> Vec<vf_core::Check> {
-    vec![c45::check()]
+    vec![c45::check(), c46::check(), c47::check()]
 }
